@@ -1045,7 +1045,7 @@ def _count(chk, traces, kinds, nontriv):
 def run(chk):
     quick = chk.tier == "quick"
     pool = cf.ThreadPoolExecutor(4)
-    mk, ll, wide = (3, 4, 0) if quick else (4, 6, 1)
+    mk, ll, wide = (3, 4, 0) if quick else (3, 6, 1)     # (4, 6, 1) with row widths 5 generates > 10^8 states: over the thorough budget on a busy machine
     futs = {"doc": pool.submit(tlc.mc, "FocusTree", MC_CFG.format(mk=mk, ll=ll, wide=wide, variant="doc", roww=3 if quick else 5, div=1), timeout=2400, workers=4 if quick else 5)}
     for v in WRONG:
         futs[v] = pool.submit(tlc.mc, "FocusTree", MC_CFG.format(mk=3, ll=4, wide=0, variant=v, roww=3, div=1), timeout=1200, workers=1)
